@@ -91,6 +91,11 @@ def _gen_ops(rng, n, uid):
     elif r < 0.82:
       ops.append({'op': 'constant', 'name': rng.choice(CONSTS),
                   'interactive': rng.random() < 0.5})
+    elif r < 0.85:
+      # a parse that is interrupted (KeyboardInterrupt-like: not an Exception)
+      # while its text is being read
+      ops.append({'op': 'interrupted_parse', 'dynamic': rng.random() < 0.6,
+                  'at': rng.randint(1, 3), 'val': u})
     elif r < 0.92:
       ops.append({'op': 'bad', 'kind': rng.choice(
           ['bind_unknown', 'parse_syntax', 'parse_unknown', 'call_missing',
@@ -117,6 +122,25 @@ def gen(rng, tier):
 
 class BodyFault(Exception):
   pass
+
+
+class Interrupt(BaseException):
+  """Injected while gin reads the text of a config."""
+
+
+class _InterruptedText(object):
+  """File-like config text whose n-th readline() is interrupted."""
+
+  def __init__(self, lines, at):
+    self.lines = [l + '\n' for l in lines]
+    self.at = at
+    self.n = 0
+
+  def readline(self):
+    if self.n == self.at:
+      raise Interrupt('interrupted')
+    self.n += 1
+    return self.lines[self.n - 1] if self.n <= len(self.lines) else ''
 
 
 class _World:
@@ -215,6 +239,22 @@ class _World:
           self.seen_singletons.add(serial)
           return ('singleton', 'constructed-now' if fresh else 'cached')
         self.attempt('singleton', go)
+      elif k == 'interrupted_parse':
+        if op['dynamic']:
+          lines = ['from __gin__ import dynamic_registration',
+                   'import vsim_mods.alpha', 'import vsim_mods.beta as bb', '']
+        else:
+          lines = ['f0.a = %d' % op['val'], 'import vsim_mods.alpha',
+                   'f1.b = %d' % op['val'], '']
+          self.keys.update(['f0.a', 'f1.b'])
+
+        def go():
+          try:
+            gin.parse_config(_InterruptedText(lines, op['at']))
+          except Interrupt:
+            return 'interrupted'
+          return 'completed'
+        self.attempt('interrupted_parse', go)
       elif k == 'finalize':
         self.attempt('finalize', gin.finalize)
       elif k == 'unlock':
@@ -394,6 +434,9 @@ def run(case):
               'clear_constants_true': 1 if case['clear_constants'] else 0},
       'faults': {'failed_ops_in_prefix': sum(1 for o in case['prefix']
                                              if o['op'] == 'bad'),
+                 'parse_interrupted_while_reading': sum(
+                     1 for o in case['prefix'] + case['suffix']
+                     if o['op'] == 'interrupted_parse'),
                  'preemption': sched_info['switches'] if sched_info else 0},
       'probes': {'prefix_left_lock': int(pre['locked']),
                  'prefix_left_singletons': int(pre['singletons']),
